@@ -21,6 +21,7 @@ import Parsley.Props.C13
 import Parsley.Props.C14
 import Parsley.Props.C11
 import Parsley.Props.C09
+import Parsley.Props.C03
 namespace Parsley.C01
 open Parsley
 
@@ -46,13 +47,22 @@ theorem pipeline_stages_never_panic_partial :
         (ObjStm.objStmParse dec vbase ctx dict view cur).1.isPanic = false) ∧
     -- page DOM construction (to_page_dom): terminates within |defs|+1 loop iterations, never panics
     (∀ (defs : PageDom.Defs) (cat : Obj.Obj) (fuel : Nat), defs.length + 1 ≤ fuel →
-        PageDom.toPageDomFuel defs fuel cat = PageDom.toPageDom defs cat ∧ ∀ p, PageDom.toPageDom defs cat ≠ .panic p) :=
+        PageDom.toPageDomFuel defs fuel cat = PageDom.toPageDom defs cat ∧ ∀ p, PageDom.toPageDom defs cat ≠ .panic p) ∧
+    -- the whole document loader (parse_data: header scan, startxref, /Prev chain, xref tables and streams,
+    -- object loading in two passes, object streams), composed from the stage models, for every file below
+    -- 2^62 bytes and decoders that are total
+    (∀ (data : Bytes), data.length < 2 ^ 62 → LoaderNoPanic.DecodersTotal → (Loader.parseData data).isPanic = false) ∧
+    -- the type-check work loop terminates within the explicit work bound, for every graph and specification
+    (∀ (g : TC.Graph) (ctx : TC.Ctx) (o : TC.Obj) (c : TC.Chk),
+        (TC.checkTypeFuel TC.Fix.tree g ctx (TC.Term.workBound TC.Fix.tree g ctx o c) o c).1 ≠ .outOfFuel) :=
   ⟨fun c s i hi hc => ⟨C16.parse_never_panics c s i hi hc, C16.depth_restored c s i hi hc⟩,
    fun c s i hi hc => (C05.indirect_never_panics c s i hi hc).1,
    C13.table_never_panics,
    C13.dictinfo_never_panics,
    C07.predictor_never_panics,
    C14.objstm_never_panics,
-   C11.dom_terminates⟩
+   C11.dom_terminates,
+   C03.load_never_panics_partial,
+   fun g ctx o c => C09.machine_terminates TC.Fix.tree rfl g ctx o c⟩
 
 end Parsley.C01
